@@ -337,6 +337,7 @@ let run mode (line : string) : string =
   | "shape_letnamed" -> Drv_shape.run "letnamed" x
   | "shape_narrow" -> Drv_shape.run "narrow" x
   | "shape_derive" -> Drv_shape.run "derive" x
+  | "shape_c07" -> Drv_shape.run "c07" x
   | "zdec" -> (match x with A s -> string_of_z (z_of_string s) | _ -> failwith "zdec")
   | _ -> failwith ("mode " ^ mode)
 
